@@ -162,9 +162,12 @@ _LOST = set()
 
 def _floor(ctx, rule, label, n, at_least):
     """fail closed on a vacuous pass - unless the rule already reported a lost construct as a finding"""
-    if rule in _LOST:
+    if rule in _LOST or n >= at_least:
         return
-    ctx.require_count(label, n, at_least)
+    # the anchored functions exist (repo.func raised otherwise) but the rule recognises fewer sites than were confirmed by
+    # hand: the protected constructs changed shape - a finding, not an analysis error
+    ctx.fail(rule, ctx.site(SHAPES, "<module>"), f"{label}: the constructs protected by {rule} are no longer found in a recognisable form",
+             f"{n} site(s) recognised, at least {at_least} were confirmed by hand")
 
 
 def _unrecognised(ctx, rule, key, fn, reason):
@@ -850,16 +853,18 @@ def r1_ring_bracket(ctx):
     if extension is not None:
         st, name, v = extension
         # guard: target compared with the defect evaluated at the upper end, target larger
-        tests = [t for t, pol in au.guards(st, stop=loop) if pol]
+        gl = au.guards(st, stop=loop)
+        tests = [t for t, pol in gl]
         target = au.params(fn)[1] if len(au.params(fn)) > 1 else None
         ok = False
-        for t in tests:
+        for t, pol in gl:
             if isinstance(t, ast.Compare) and len(t.ops) == 1:
                 l, r = t.left, t.comparators[0]
-                if isinstance(t.ops[0], (ast.Lt, ast.LtE)):
-                    l, r = r, l
-                elif not isinstance(t.ops[0], (ast.Gt, ast.GtE)):
+                less = isinstance(t.ops[0], (ast.Lt, ast.LtE))
+                if not isinstance(t.ops[0], (ast.Lt, ast.LtE, ast.Gt, ast.GtE)):
                     continue
+                if less == pol:      # `l < r` holding, or `l > r` failing:  r is the larger side
+                    l, r = r, l
                 # l > r : l is the target, r depends on the upper end
                 lr = G.fast_resolve(b, l, st, keep=(target,))
                 rr = G.fast_resolve(b, r, st, keep=tuple(ends))
@@ -871,14 +876,16 @@ def r1_ring_bracket(ctx):
                   note=f"ring: `{au.src(st)}` extends the bracket when the target exceeds the defect at {upper}")
         return
     # shrink-only loop: the initial bracket must already contain every admissible apex
+    # admissible defects: the clamp  defect = max(min(defect, C), 0)  gives the largest one, C = 2*pi - eps
     eps = None
-    for st in fn.body:
-        for name, v in sym.split_assign(st):
-            if name == "max_defect" or (isinstance(v, ast.BinOp) and isinstance(v.op, ast.Sub) and order.fold_const(v) is not None
-                                        and 6.0 < order.fold_const(v) < 2 * math.pi):
-                c = order.fold_const(v)
-                if c is not None:
-                    eps = 2 * math.pi - c
+    target = au.params(fn)[1] if len(au.params(fn)) > 1 else None
+    for c in au.calls(fn):
+        if au.call_tail(c) == "min" and len(c.args) == 2 and any(isinstance(a, ast.Name) and a.id == target for a in c.args) \
+                and c.lineno < loop.lineno:
+            other = [a for a in c.args if not (isinstance(a, ast.Name) and a.id == target)]
+            cst = order.fold_const(G.fast_resolve(b, other[0], c)) if other else None
+            if cst is not None and cst < 2 * math.pi:
+                eps = 2 * math.pi - cst
     H = init[upper]
     need = math.sqrt(max((2 * math.pi / eps) ** 2 - 1, 0)) if eps else float("inf")
     wit = ""
